@@ -138,6 +138,7 @@ func init() {
 			{Name: "expiry", Cases: pick(40, 300), Run: c12Expiry, Quiet: 90 * time.Second},
 			{Name: "aimed", Cases: pick(160, 800), Run: c12Aimed, Quiet: 90 * time.Second, Procs: 4, Workers: 8},
 			{Name: "reconnect", Cases: pick(48, 600), Run: c12Reconnect, Quiet: 90 * time.Second},
+			{Name: "late-verdict", Cases: pick(48, 600), Run: func(c *rig.Ctx) { xLateVerdict(c, c.Rand, "late-verdict") }, Quiet: 90 * time.Second},
 			{Name: "removals", Cases: pick(16, 120), Run: c12Removals, Quiet: 90 * time.Second},
 			{Name: "blocking", Cases: pick(96, 1200), Run: c12Blocking, Quiet: 90 * time.Second},
 			{Name: "shapes", Cases: pick(80, 1000), Run: c12Shapes, Quiet: 90 * time.Second},
